@@ -40,6 +40,7 @@ type loopInfo struct {
 	blocks   map[*ssa.BasicBlock]bool
 	ordinal  int
 	minPos   token.Pos
+	maxPos   token.Pos
 	cells    []*ssa.Alloc
 	mods     *ModSet
 	iters    []ssa.Value
@@ -473,6 +474,9 @@ func (fx *FnExec) findLoops() {
 				if p := in.Pos(); p.IsValid() && p < li.minPos {
 					li.minPos = p
 				}
+				if p := in.Pos(); p.IsValid() && p > li.maxPos {
+					li.maxPos = p
+				}
 			}
 		}
 	}
@@ -596,6 +600,15 @@ func (fx *FnExec) backEdge(st *State, cond Term, li *loopInfo) {
 	var invs []Clause
 	if fx.contract != nil {
 		invs = fx.contract.Loops[li.ordinal]
+		if its := fx.contract.IterEnsures[li.ordinal]; len(its) > 0 {
+			s3 := st.Clone()
+			s3.R = fx.sc.Define("R$iter", cond)
+			for _, cl := range its {
+				env := fx.specEnv(s3, fx.entry, nil, true)
+				env.pos = li.maxPos
+				fx.AssertClause(s3, env, fmt.Sprintf("loop%d.iter.%s", li.ordinal, cl.Label), "iteration-ensures", cl)
+			}
+		}
 	}
 	if len(invs) == 0 {
 		return
